@@ -81,18 +81,26 @@ def cases(draw, tier_cfg):
         ln = draw(st.integers(1, 8))
         ops.append({"op": "user", "tick": a, "name": which})
         ops.append({"op": "user", "tick": a + ln, "name": "Unpause" if which == "Pause" else "Unhold"})
-    snippet = draw(E.snippet_strategy(allow_block=True))
+    long_cmd = draw(st.integers(0, 5)) == 0
+    if long_cmd:
+        # long-command family: a multi-tick command injected (almost) alone, the next injection at every offset from right
+        # after it to after its last iteration - the snippet's lines are all visited while its command still executes
+        nlong = draw(st.integers(4, 7))
+        snippet = [{"k": "slow", "n": nlong}] + ([{"k": "mark"}] if draw(st.integers(0, 3)) == 0 else [])
+    else:
+        snippet = draw(E.snippet_strategy(allow_block=True))
     if not any(x["k"] in ("mark", "quick", "slow") for x in snippet):
         snippet.append({"k": "mark"})
     ops.append({"op": "inject", "tick": t_inj, "snippet": snippet})
     t_last = t_inj
-    for _ in range(draw(st.sampled_from([0, 0, 1, 1, 2]))):      # further injections shortly after (0-4 ticks): they overlap
-        t_last = t_last + draw(st.integers(0, 4))
+    for n_more in range(draw(st.sampled_from([1, 1, 2]) if long_cmd else st.sampled_from([0, 0, 1, 1, 2]))):
+        # further injections shortly after: they overlap the earlier one
+        t_last = t_last + (draw(st.integers(1, nlong + 3)) if long_cmd and n_more == 0 else draw(st.integers(0, 4)))
         sn = draw(E.snippet_strategy(allow_block=False))
         if not any(x["k"] in ("mark", "quick", "slow") for x in sn):
             sn.append({"k": "mark"})
         ops.append({"op": "inject", "tick": t_last, "snippet": sn})
-    if draw(st.integers(0, 8)) < 4:
+    if draw(st.integers(0, 8)) < (1 if long_cmd else 4):
         ops.append({"op": "edit", "tick": t_inj + draw(st.integers(0, 5)), "kind": draw(st.sampled_from(EDIT_KINDS_W)),
                     "idx": draw(st.integers(0, 40)), "payload": draw(st.lists(E.LEAF, min_size=1, max_size=2))})
     return {"tree": tree, "traj": traj, "ops": ops}
@@ -221,6 +229,10 @@ def run_case(case):
             cl.append("snippet-block")
         if any(k.startswith("cmd:Slow") for k in keys):
             cl.append("snippet-slow")
+            if n_inj == 0 and len(injs) > 1 and len(keys) <= 2:
+                n_it = int(float([k for k in keys if k.startswith("cmd:Slow")][0].split(":")[2]))
+                if n_it >= 4:
+                    cl.append("long-injected-command:next-injection-offset:%d" % (injs[1]["tick"] - t_inj))
         if any(x["k"] == "wait" for x in snippet):
             cl.append("snippet-wait")
         if inj["cmds_running"]:
@@ -313,6 +325,11 @@ def run_case(case):
             cl.append("twin-compared")
             if A["error_events"]:
                 viol("method-changed:method-error", "method error only with the injection: %s" % (A["error_events"][0][2:],))
+            if (A["final_state"], A["final_status"]) != (B["final_state"], B["final_status"]):
+                viol("method-changed:run-state:%s/%s" % (A["final_state"], A["final_status"]),
+                     "after %d ticks the run is %s / Method Status %s with the injection(s) %s, but %s / %s without"
+                     % (A["n_ticks"], A["final_state"], A["final_status"], [(i2["tick"], i2["pcode"]) for i2 in injs],
+                        B["final_state"], B["final_status"]))
             byblk = "by-injected-block:" if any_block else ""
             robust = {lid for i, (lid, _) in enumerate(A["final_lines"]) if not S.info(i)["in_alarm"] and S.ins[i] != "Alarm"}
             if not A["quiet"]:
